@@ -764,3 +764,34 @@ package server
 //@ assert at call OnDeleteRange#0: recv == sessionManagerUpdateOperationCallback
 //@ assert at call OnDeleteRange#1: recv == secondaryIndexesUpdateCallback
 //@ modifies *
+
+// ---------------------------------------------------------------- turning a leader controller into a follower (C04)
+
+//@ func LeaderController.Term(recv) (term)
+//@ trusted
+//@ pure
+
+//@ func NewFollowerController
+//@ trusted
+//@ modifies *
+//@ preserves fields(shardsDirector)
+//@ ensures result1 == nil ==> result0 != nil
+//@ note trusted: opens the shard's log and database; does not know the director
+
+//@ func LeaderController.Close(recv) (err)
+//@ trusted
+//@ modifies *
+//@ preserves fields(shardsDirector), fields(map[int64]server.LeaderController), fields(map[int64]server.FollowerController)
+
+// A request that needs a follower controller (Truncate, Replicate, SendSnapshot of some
+// term) closes the leader controller hosting the shard only when it carries that
+// controller's own term: a late request of another term is refused and the controller —
+// whatever its status, LEADER or FENCED — stays.
+//
+//@ func shardsDirector.GetOrCreateFollower(s, namespace, shardId, term) (fc, err)
+//@ property C04
+//@ holdslock
+//@ requires s.followers != nil && s.leaders != nil && s.leadersCounter != nil && s.followersCounter != nil
+//@ requires forall k int64 :: inmap(s.leaders, k) ==> s.leaders[k] != nil
+//@ assert at call Close#0: term < 0 || term == callres_Term_0
+//@ modifies *
